@@ -210,7 +210,9 @@ pub fn run_case(rc: &mut RunCtx, id: String, fm_client: u32, fm_server: u32, nch
     let mut res = CaseResult::new(id);
     let fm = crate::props::c15::reference((0, fm_client, 0), (0, fm_server, 0)).map(|t| t.1).unwrap_or(4096);
     let mut reflex = Reflex::default();
-    reflex.tune = (2047, fm_server, 0);
+    // (the channel limit is irrelevant to framing, whatever its relation to frame_max)
+    let cm = *r.pick(&[2047u16, 0, 65535, 8192, 9]);
+    reflex.tune = (cm, fm_server, 0);
     let opts = session::default_opts().frame_max(fm_client);
     let (conn, h) = session::open_with(reflex, opts, ConnectionTuning::default(), |_| {});
     let mut conn = match conn {
